@@ -523,6 +523,33 @@ class GenTr(FxTr):
         return kpt != 0 and any(isinstance(x, _EndTry) for x in self.konts[kpt])
 
 
+def _canonical_object_names(f, spec):
+    """the tables name the object a request resumes with by ONE canonical local name (`packet`): if the body binds it to
+    another local (`pkt = yield self.store.get()`), that local is renamed throughout the body -- provided the canonical
+    name is not in use for anything else and the local is bound by nothing but such yields"""
+    if len(spec.objects) != 1:
+        return
+    canon = spec.objects[0]
+    pats = [_parse_expr(src) for (src, con, tys, resume) in spec.requests if resume == "obj"]
+    names = set()
+    for n in ast.walk(f):
+        if isinstance(n, ast.stmt):
+            try:
+                y = _yield_of(n)
+            except Unsupported:
+                continue
+            if y is not None and y[0] is not None and y[1] is not None and any(_match(p, y[1], {}) for p in pats):
+                names.add(y[0])
+    if len(names) != 1 or names == {canon}:
+        return
+    old = names.pop()
+    if any((isinstance(n, ast.Name) and n.id == canon) or (isinstance(n, ast.arg) and n.arg in (canon, old)) for n in ast.walk(f)):
+        return
+    for n in ast.walk(f):
+        if isinstance(n, ast.Name) and n.id == old:
+            n.id = canon
+
+
 def translate_gen(spec, state, record, prefix, effect_type):
     """-> (list of (program point, intr?, text of the definition), translator)"""
     f = find_method(spec.path, spec.cls, spec.method)
@@ -530,6 +557,7 @@ def translate_gen(spec, state, record, prefix, effect_type):
         raise Unsupported(f"{spec.cls}.{spec.method}: signature")
     if not _has_yield(f):
         raise Unsupported(f"{spec.cls}.{spec.method} is not a generator")
+    _canonical_object_names(f, spec)
     tr = GenTr(spec, state, record, prefix, effect_type, f)
     # frames: fixpoint (a frame only shrinks; a new point starts from what the first path to it defines)
     for _ in range(4 * (len(tr.point) + 2)):
